@@ -118,4 +118,30 @@ end
 /-- `to_string(&BTreeMap)` of an object. -/
 def encodeObj (o : Obj) : List Nat := encode (.obj o)
 
+/-- `ruma_signatures::canonical_json` (functions.rs `canonical_json_with_fields_to_remove` with
+`["signatures", "unsigned"]`): clone, `remove` each field, compact `to_string`. -/
+def sigCanonicalJson (o : Obj) : List Nat :=
+  encodeObj (Obj.erase (Obj.erase o (bs "signatures")) (bs "unsigned"))
+
+mutual
+/-- External code, modelled as an assumption: the `serde_json::Value` that serde_json's
+deserializer builds from a JSON text whose object entries *in text order* are the given pairs.
+`serde_json::Map` (a `BTreeMap<String, Value>`) is filled by `insert` per entry, so a later
+duplicate key replaces the earlier value before ruma's code sees anything. -/
+def serdeValue : JVal → JVal
+  | .null => .null
+  | .bool b => .bool b
+  | .int i => .int i
+  | .float => .float
+  | .str s => .str s
+  | .arr xs => .arr (serdeValueL xs)
+  | .obj kvs => .obj (Obj.ofList (serdeValueO kvs))
+def serdeValueL : List JVal → List JVal
+  | [] => []
+  | v :: t => serdeValue v :: serdeValueL t
+def serdeValueO : List (Str × JVal) → List (Str × JVal)
+  | [] => []
+  | (k, v) :: t => (k, serdeValue v) :: serdeValueO t
+end
+
 end Ruma.Canonical
